@@ -18,6 +18,22 @@ NOTE = ("Static analysis of /repo's current sources (ast -> resolved call "
 
 # id -> (technique, level text, design ref)
 CLAIMED = {
+    'C01': (
+        'value identity on symbolic terms over reaching definitions '
+        '(light SSA), CFG must-pass-through, order provenance, alias '
+        'check, typed record keys',
+        'Decides structural necessary conditions of "one record per cell, '
+        'in query order, with every stored level": ids and rows are cut by '
+        'the same chunk bounds and the iterators keep the (rows, r0, r1) '
+        'protocol; results are written back through the selecting index; '
+        're_order_blob is applied on every return and takes its order from '
+        'the query file; back-fill and the embedded tree use the stored '
+        'taxonomy while marker cache, election and marker report share one '
+        'tree version; inferred records are flagged copies without '
+        'runner-up fields; no level-keyed record is subscripted with a '
+        'possibly-None level. Does not decide that assignments form a '
+        'root-to-leaf path nor totality beyond the None-key rule.',
+        'DESIGN.md section 5, C01'),
     'C14': (
         'CFG acquire/release pairing, exit-code operator check, handler '
         're-raise check, dominance, HDF5 schema comparison',
